@@ -24,12 +24,28 @@ Section Finite.
     specialize (H cs (b_wavelength b) (b_pol b)). destruct (o_waist_pos K _ _ _); [reflexivity | congruence].
   Qed.
 
-  Theorem finite_partial c s nf :
-    geometry_defined ->
+  (* PER INPUT: the waist positions are defined (the index along z is not 0) and the emission angle of THIS configuration's
+     optimum idler is defined *)
+  Definition geometry_defined_at (c : spdc_cfg num) : Prop :=
+    (forall cs l p, o_waist_pos K cs l p <> None) /\
+    (forall signal pp nfp cs, signal_step o K c = Ok signal -> poling_step o K minpos rj c signal = Ok (pp, nfp) ->
+       theta_step o K c signal pp = Ok cs -> o_idler_theta K signal (cfg_pump o c) cs pp <> None).
+
+  Lemma geometry_defined_every c : geometry_defined -> geometry_defined_at c.
+  Proof. intros [H1 H2]. split; [exact H2 |]. intros; apply H1. Qed.
+
+  Lemma focus_step_nf' cs b f w : (forall cs l p, o_waist_pos K cs l p <> None) -> snd (focus_step o K cs b f w) = [].
+  Proof.
+    intros H. unfold focus_step, waist_position. destruct f; [| reflexivity].
+    specialize (H cs (b_wavelength b) (b_pol b)). destruct (o_waist_pos K _ _ _); [reflexivity | congruence].
+  Qed.
+
+  Theorem finite_at c s nf :
+    geometry_defined_at c ->
     (forall signal, signal_step o K c = Ok signal -> neqb o (o_dkz0 K signal (cfg_pump o c) (cfg_cs0 o c)) (n0 o) = false) ->
     try_as_spdc c = Ok (s, nf) -> nf = [].
   Proof.
-    intros Hg Hz. unfold Config.try_as_spdc_steps.
+    intros [Hw Hg] Hz. unfold Config.try_as_spdc_steps.
     destruct (signal_step o K c) as [signal | |] eqn:Hs; cbn [bind]; try discriminate.
     specialize (Hz signal eq_refl).
     destruct (poling_step o K minpos rj c signal) as [[pp nfp] | |] eqn:Hp; cbn [bind fst snd]; try discriminate.
@@ -41,17 +57,23 @@ Section Finite.
         destruct (_ || _); cbn [bind]; try discriminate. intros H; inversion H; reflexivity.
       - destruct (rj && neqb o pu (n0 o)); try discriminate.
         destruct (compute_sign o K _ _ _); cbn [bind]; try discriminate. intros H; inversion H; reflexivity. }
-    destruct (theta_step o K c signal pp) as [cs | |]; cbn [bind]; try discriminate.
+    destruct (theta_step o K c signal pp) as [cs | |] eqn:Ht; cbn [bind]; try discriminate.
     destruct (idler_step o K c signal cs pp) as [[idler nfi] | |] eqn:Hi; cbn [bind fst snd]; try discriminate.
     assert (Hnfi : nfi = []).
     { revert Hi. unfold idler_step. destruct (c_idler c) as [| ic].
       - unfold idler_optimum. destruct (signal_le_pump o _ _); try discriminate.
-        destruct Hg as [Hg _]. specialize (Hg signal (cfg_pump o c) cs pp).
+        specialize (Hg signal pp nfp cs eq_refl Hp Ht).
         destruct (o_idler_theta K _ _ _ _); [| congruence]. intros H; inversion H; reflexivity.
       - destruct (beam_of_cfg o K _ ic cs); cbn [bind]; try discriminate. intros H; inversion H; reflexivity. }
     unfold finish_spdc. intros H. inversion H. subst.
-    rewrite !(focus_step_nf _ _ _ _ Hg). reflexivity.
+    rewrite !(focus_step_nf' _ _ _ _ Hw). reflexivity.
   Qed.
+
+  Theorem finite_partial c s nf :
+    geometry_defined ->
+    (forall signal, signal_step o K c = Ok signal -> neqb o (o_dkz0 K signal (cfg_pump o c) (cfg_cs0 o c)) (n0 o) = false) ->
+    try_as_spdc c = Ok (s, nf) -> nf = [].
+  Proof. intros Hg. apply finite_at. apply geometry_defined_every. exact Hg. Qed.
 
   (* poling is on in the setup exactly when the configuration asks for it *)
   Theorem poling_off_iff c s nf : try_as_spdc c = Ok (s, nf) -> (s_pp s = PolOff <-> c_pp c = PCOff).
@@ -106,3 +128,4 @@ Section Finite.
 End Finite.
 
 Arguments geometry_defined {num} K.
+Arguments geometry_defined_at {num} o K minpos rj c.
